@@ -19,7 +19,8 @@ def command_events(ctx):
     def mk(name, n, qual):
         with open(os.path.join(d, name), "w") as f:
             for k in range(1, n + 1):
-                seq = "".join("acgt"[(k + i) % 4] for i in range(5 + k % 70))
+                ln = {4: 60, 8: 120}.get(k % 9, 5 + k % 70)      # full 60-column lines among the others
+                seq = "".join("acgt"[(k + i) % 4] for i in range(ln))
                 if qual:
                     f.write("@r0_%d\n%s\n+\n%s\n" % (k, seq, "I" * len(seq)))
                 else:
@@ -80,7 +81,18 @@ def command_events(ctx):
                     if e["sizes"] == [0] and toks == ["header"]:
                         pass
                 elif e["fmt"] == "fasta":
-                    toks = [l[1:].split()[0] for l in text.splitlines() if l.startswith(">")]
+                    # strict: title lines and non-empty nucleotide lines only, the text ends with a new line
+                    toks = []
+                    lines = text.split("\n")
+                    if text and lines[-1] != "":
+                        toks.append("junk:no-final-newline")
+                    for l in lines[:-1] if lines and lines[-1] == "" else lines:
+                        if l.startswith(">"):
+                            toks.append(l[1:].split()[0])
+                        elif l == "":
+                            toks.append("junk:blank-line")
+                        elif l.strip("acgtn") != "" or not toks:
+                            toks.append("junk:not-a-sequence-line")
                 else:
                     lines = text.splitlines()
                     toks = [lines[i][1:].split()[0] for i in range(0, len(lines), 4)] if len(lines) % 4 == 0 else ["junk:fastq-structure"]
